@@ -5,6 +5,7 @@ package sym
 import (
 	"fmt"
 	"os"
+	"sync"
 	"go/constant"
 	"go/token"
 	"go/types"
@@ -61,6 +62,9 @@ type Exec struct {
 	globals  map[*ssa.Global]*Cell
 	pc       []*Term
 	pcSet    map[int]bool
+	pcVars   map[int]bool
+	pcSeen   map[int]bool
+	pcSyms   [][]int
 	prefix   []int
 	pos      int
 	decs     []int   // decisions taken on this path (prefix + new)
@@ -93,7 +97,7 @@ type Exec struct {
 }
 
 func NewExec(p *Program, s *Solver, prefix []int) *Exec {
-	return &Exec{P: p, S: s, pcSet: map[int]bool{}, globals: map[*ssa.Global]*Cell{}, prefix: prefix, counters: map[string]int{},
+	return &Exec{P: p, S: s, pcSet: map[int]bool{}, pcVars: map[int]bool{}, pcSeen: map[int]bool{}, globals: map[*ssa.Global]*Cell{}, prefix: prefix, counters: map[string]int{},
 		InputLbl: map[int]string{}, Reached: map[string]int{}, Funcs: map[*ssa.Function]bool{}, Unwind: 4096, MaxSteps: 20000000,
 		ext: map[string]interface{}{}}
 }
@@ -112,12 +116,17 @@ func (ex *Exec) addPC(t *Term) {
 	}
 	ex.pc = append(ex.pc, t)
 	ex.pcSet[t.ID] = true
+	Walk(t, ex.pcSeen, func(x *Term) {
+		if x.Op == "var" {
+			ex.pcVars[x.ID] = true
+		}
+	})
 	if t.Op == "and" {
 		for _, c := range t.Args {
 			ex.pcSet[c.ID] = true
 		}
 	}
-	ex.S.Assert(t)
+	ex.pcSyms = append(ex.pcSyms, symbolsOf(t))
 }
 
 // known reports whether the path condition syntactically decides c.
@@ -160,10 +169,99 @@ func (ex *Exec) Assume(t *Term) {
 		}
 		return
 	}
-	// Lazy: the constraint is added without a feasibility query. If it makes the path
-	// infeasible, the next Decide finds both sides unsatisfiable and aborts the path; assertions
-	// checked in between hold vacuously.
+	if ex.pos >= len(ex.prefix) {
+		// beyond the replayed prefix: keep the invariant "the path condition is satisfiable"
+		// (the independence slicing of queries relies on it)
+		if r, _ := ex.Check([]*Term{t}, nil); r == Unsat {
+			panic(PathAbort{"assume infeasible"})
+		} else if r == Unknown {
+			ex.unknowns++
+		}
+	}
 	ex.addPC(t)
+}
+
+// symbolsOf lists the free symbols of t: variable ids, and one shared id per uninterpreted
+// function name (applications of the same function are related by its axioms).
+func symbolsOf(t *Term) []int {
+	var out []int
+	seen := map[int]bool{}
+	Walk(t, map[int]bool{}, func(x *Term) {
+		id := 0
+		switch x.Op {
+		case "var":
+			id = x.ID
+		case "app":
+			id = -ufID(x.S)
+		case "zeros":
+			id = x.ID
+		}
+		if id != 0 && !seen[id] {
+			seen[id] = true
+			out = append(out, id)
+		}
+	})
+	return out
+}
+
+var ufIDs = map[string]int{}
+var ufIDMu sync.Mutex
+
+func ufID(name string) int {
+	ufIDMu.Lock()
+	defer ufIDMu.Unlock()
+	if id, ok := ufIDs[name]; ok {
+		return id
+	}
+	id := len(ufIDs) + 1
+	ufIDs[name] = id
+	return id
+}
+
+// Check decides PC ∧ extra. Without a model request only the conjuncts of the path condition
+// that share symbols (transitively) with extra are sent: the path condition is satisfiable
+// (invariant), so independent conjuncts cannot change the answer.
+func (ex *Exec) Check(extra []*Term, wantModel []*Term) (SatResult, map[int]string) {
+	var asserts []*Term
+	if len(wantModel) > 0 {
+		asserts = ex.pc
+	} else {
+		syms := map[int]bool{}
+		for _, e := range extra {
+			for _, s := range symbolsOf(e) {
+				syms[s] = true
+			}
+		}
+		inc := make([]bool, len(ex.pc))
+		for changed := true; changed; {
+			changed = false
+			for i := range ex.pc {
+				if inc[i] {
+					continue
+				}
+				hit := false
+				for _, s := range ex.pcSyms[i] {
+					if syms[s] {
+						hit = true
+						break
+					}
+				}
+				if hit {
+					inc[i] = true
+					changed = true
+					for _, s := range ex.pcSyms[i] {
+						syms[s] = true
+					}
+				}
+			}
+		}
+		for i, c := range ex.pc {
+			if inc[i] {
+				asserts = append(asserts, c)
+			}
+		}
+	}
+	return ex.S.CheckSat(append(append([]*Term{}, asserts...), extra...), wantModel)
 }
 
 // Decide forks on a symbolic condition. Returns the side taken on this path.
@@ -186,12 +284,27 @@ func (ex *Exec) Decide(c *Term) bool {
 		return false
 	}
 	ex.pos++
-	rt, _ := ex.S.CheckSat([]*Term{c}, nil)
+	// a free Boolean input that the path condition does not mention yet can go either way:
+	// no solver query needed (session presence bits, fault flags, ...)
+	if fv := c; fv.Op == "var" || (fv.Op == "not" && fv.Args[0].Op == "var") {
+		v := fv
+		if v.Op == "not" {
+			v = v.Args[0]
+		}
+		if !ex.pcVars[v.ID] {
+			alt := append(append([]int{}, ex.decs...), 0)
+			ex.forks = append(ex.forks, alt)
+			ex.decs = append(ex.decs, 1)
+			ex.addPC(c)
+			return true
+		}
+	}
+	rt, _ := ex.Check([]*Term{c}, nil)
 	var rf SatResult
 	if rt == Unsat {
 		rf = Sat // PC is satisfiable (invariant), so the other side is
 	} else {
-		rf, _ = ex.S.CheckSat([]*Term{Not(c)}, nil)
+		rf, _ = ex.Check([]*Term{Not(c)}, nil)
 	}
 	if rt == Unknown || rf == Unknown {
 		ex.unknowns++
